@@ -12,6 +12,9 @@ use crate::msops::{self, Assets};
 use crate::with_ctx;
 use miniscript::{Miniscript, ScriptContext};
 
+#[path = "c11psbt.rs"]
+mod psbtraw;
+
 static LAST_PANIC: std::sync::Mutex<String> = std::sync::Mutex::new(String::new());
 
 fn satisfier_case<Pk: msops::HKey, Ctx: ScriptContext>(out: &mut Out, ctx: CtxK, node: &Node, a: &Assets, tag: &str)
@@ -344,7 +347,8 @@ pub fn run(out: &mut Out, thorough: bool, seed: u64) {
     psbt_tap_rawpkh(out, true);
     psbt_tap_rawpkh(out, false);
     non_ascii_stream(out, thorough);
-    from_txdata_stream(out, thorough);
+    { let t0 = std::time::Instant::now(); from_txdata_stream(out, thorough); out.note("from_txdata_seconds", format!("{:.1}", t0.elapsed().as_secs_f64())); }
+    { let t0 = std::time::Instant::now(); psbtraw::run(out, thorough, &LAST_PANIC); out.note("psbt_raw_seconds", format!("{:.1}", t0.elapsed().as_secs_f64())); }
     // 3. panic sweep over the other modules
     out.sweep = true;
     crate::c04::run(out, thorough, seed);
